@@ -13,6 +13,7 @@ import Rooc.Proofs.LinC10
 import Rooc.Proofs.LinExamples
 import Rooc.Proofs.LinMain
 import Rooc.Proofs.LinCounter
+import Rooc.Proofs.LinBridgeCounter
 namespace Rooc.Props.C02
 open Rooc Rooc.Lin Rooc.Sem Rooc.LinP
 
@@ -117,6 +118,75 @@ example : ∃ (m : Model (Ext K)) (b : BoundsMap (Ext K)) (d : List (DomVar (Ext
   · intro c hc
     exact ⟨(haff.cons c hc).notAssert, FG_of_AG (haff.cons c hc).lhs, FG_of_AG (haff.cons c hc).rhs, hdef c hc⟩
   · intro ρ _ n bd _ hl; simp [lookupB] at hl
+  · simp [srcFeasible, exAffine, constraintHolds, eval, cmpK, inDomain, geExt, leExt]
+  · simp [exAffine, eval]
+
+/-! ## The bridge — C02 for the whole pipeline `Compile.linearize m tol maxSteps`
+(vocabulary: `DeclOK`, `pipelineAnalyzer`, `IntRangesInBox`, `NoIntegerVars` — see `Rooc/Props/C01.lean`, section
+"The bridge"; `DomRel` and `BoxEnforced` are discharged from C07/C10 for what the pipeline computes). -/
+
+open Rooc.BoundsProofs in
+/-- **C02 for the whole pipeline, piecewise-linear models**, every tolerance `t ≥ 0`, every step limit: for a
+source-feasible `ρ` with objective value `v`, every feasible auxiliary extension has a linear objective on the
+right side of `v` (`rel (objReq m) w v`, see `objReq_cases`), and some feasible extension attains `v`.
+`_partial`: the fragment and `IntRangesInBox` on the computed analyzer state
+(`Rooc.Props.C01.c01_int_tolerance_counterexample`: there the linear optimum is 5, the source optimum 4). -/
+theorem c02_compile_partial {m : Model (Ext K)} {t : K} (ht : 0 ≤ t) {maxSteps : Nat} {lm : LinModel (Ext K)}
+    (h : Compile.linearize m (.fin t) maxSteps = .ok lm)
+    (hm : FragModel true m m.domain) (hok : DeclOK m.domain)
+    (hint : ∀ an, pipelineAnalyzer m (.fin t) maxSteps = some an → IntRangesInBox an m.domain)
+    (ρ : String → K) (hs : srcFeasible m ρ = true) (v : K) (hv : eval ρ m.objective = some v) :
+    (∀ ρ' : String → K, (∀ x, inScope m.domain x → ρ' x = ρ x) → linFeasible lm ρ' = true →
+        ∃ w, linObjective lm ρ' = some w ∧ rel (objReq m) w v) ∧
+    (∃ ρ' : String → K, (∀ x, inScope m.domain x → ρ' x = ρ x) ∧ linFeasible lm ρ' = true ∧
+        linObjective lm ρ' = some v) :=
+  compile_objective ht h hm hok hint ρ hs v hv
+
+/-- the same for models that declare no `IntegerRange` variable: no hypothesis on computed data. -/
+theorem c02_compile_noint_partial {m : Model (Ext K)} {t : K} (ht : 0 ≤ t) {maxSteps : Nat} {lm : LinModel (Ext K)}
+    (h : Compile.linearize m (.fin t) maxSteps = .ok lm)
+    (hm : FragModel true m m.domain) (hok : DeclOK m.domain) (hni : NoIntegerVars m.domain)
+    (ρ : String → K) (hs : srcFeasible m ρ = true) (v : K) (hv : eval ρ m.objective = some v) :
+    (∀ ρ' : String → K, (∀ x, inScope m.domain x → ρ' x = ρ x) → linFeasible lm ρ' = true →
+        ∃ w, linObjective lm ρ' = some w ∧ rel (objReq m) w v) ∧
+    (∃ ρ' : String → K, (∀ x, inScope m.domain x → ρ' x = ρ x) ∧ linFeasible lm ρ' = true ∧
+        linObjective lm ρ' = some v) :=
+  compile_objective ht h hm hok (fun an _ => intRangesInBox_of_noInt hni an) ρ hs v hv
+
+/-- Consequence for the whole pipeline: equal optimal values of a minimisation model (attained on both sides). -/
+theorem c02_compile_min_optimum_partial {m : Model (Ext K)} {t : K} (ht : 0 ≤ t) {maxSteps : Nat}
+    {lm : LinModel (Ext K)} (h : Compile.linearize m (.fin t) maxSteps = .ok lm)
+    (hm : FragModel true m m.domain) (hok : Rooc.LinP.DeclOK m.domain)
+    (hint : ∀ an, pipelineAnalyzer m (.fin t) maxSteps = some an → IntRangesInBox an m.domain)
+    (hmin : m.optType = .min)
+    (ρ : String → K) (hs : srcFeasible m ρ = true) (v : K) (hv : eval ρ m.objective = some v)
+    (hopt : ∀ ρ₂ : String → K, srcFeasible m ρ₂ = true → ∀ v₂, eval ρ₂ m.objective = some v₂ → v ≤ v₂) :
+    (∃ ρ' : String → K, linFeasible lm ρ' = true ∧ linObjective lm ρ' = some v) ∧
+    (∀ ρ'' : String → K, linFeasible lm ρ'' = true → ∀ w, linObjective lm ρ'' = some w → v ≤ w) := by
+  obtain ⟨an, han, hlin⟩ := (compile_ok_iff m _ maxSteps lm).mp h
+  obtain ⟨hdom, hbox⟩ := pipeline_hyps ht maxSteps hm hok han (hint an han)
+  exact c02_min_optimum_partial hlin (fragModel_applyToDomain an hm) hdom hbox hmin ρ hs v hv hopt
+
+/-- non-vacuity through the pipeline with a real auxiliary and a source-feasible point (step limit 0, every
+tolerance): `min y s.t. abs{x} ≤ y`, `x ∈ [-1, 2]` at `x = y = 0`. -/
+example (t : K) : ∃ (m : Model (Ext K)) (lm : LinModel (Ext K)) (ρ : String → K) (v : K),
+    Compile.linearize m (.fin t) 0 = .ok lm ∧ FragModel true m m.domain ∧ DeclOK m.domain ∧
+      NoIntegerVars m.domain ∧ srcFeasible m ρ = true ∧ eval ρ m.objective = some v := by
+  obtain ⟨lm, h⟩ := exAbs_compile (K := K) (.fin t)
+  refine ⟨exAbs, lm, fun _ => 0, 0, h, exAbs_hyps.1, exAbs_declOK, exAbs_noInt, ?_, ?_⟩
+  · simp [srcFeasible, exAbs, constraintHolds, eval, kabs, cmpK, inDomain, geExt, leExt]
+  · simp [exAbs, eval]
+
+/-- non-vacuity for every tolerance AND every step limit (`min x s.t. x ≤ y`). -/
+example (t : K) (n : Nat) : ∃ (m : Model (Ext K)) (lm : LinModel (Ext K)) (ρ : String → K) (v : K),
+    Compile.linearize m (.fin t) n = .ok lm ∧ FragModel true m m.domain ∧ DeclOK m.domain ∧
+      NoIntegerVars m.domain ∧ srcFeasible m ρ = true ∧ eval ρ m.objective = some v := by
+  obtain ⟨lm, h⟩ := exAffine_compile (K := K) (.fin t) n
+  obtain ⟨haff, hdef, _⟩ := exAffine_hyps (K := K)
+  refine ⟨exAffine, lm, fun _ => 0, 0, h, ⟨FG_of_AG haff.obj, ?_, ?_⟩, exAffine_declOK, exAffine_noInt, ?_, ?_⟩
+  · intro ρ; exact ⟨ρ "x", by simp [exAffine, eval]⟩
+  · intro c hc
+    exact ⟨(haff.cons c hc).notAssert, FG_of_AG (haff.cons c hc).lhs, FG_of_AG (haff.cons c hc).rhs, hdef c hc⟩
   · simp [srcFeasible, exAffine, constraintHolds, eval, cmpK, inDomain, geExt, leExt]
   · simp [exAffine, eval]
 
